@@ -75,6 +75,7 @@ Proof.
       * inv H. cbn. lia.
     + destruct ws2; inv H. cbn. lia.
     + destruct pp as [q|]; inv H. cbn. lia.
+    + inv H. destruct (p_closefail p); cbn; lia.
     + destruct werr; inv H. cbn. lia.
   - (* AWkCanc *)
     destruct canc; try discriminate. destruct wk; try discriminate; sred.
@@ -162,11 +163,11 @@ Ltac inv_solve :=
             | intuition congruence
             | repeat split; intuition congruence ].
 
-Lemma inv_step : forall p a s s', Inv s -> step p a s = Some s' -> Inv s'.
+Lemma inv_step : forall p a s s', p_closefail p = false -> Inv s -> step p a s = Some s' -> Inv s'.
 Proof.
-  intros p a s s' I H. destruct I as [A1 A2 A3 B1 B2 B3 C1 C2 C3 D0 D1 D2 E].
+  intros p a s s' CF I H. destruct I as [A1 A2 A3 B1 B2 B3 C1 C2 C3 D0 D1 D2 E].
   destruct s as [ctx canc wch wcl werr cerr ficl mn ret files wk cons pp].
-  destruct a; unfold step in H; sred; repeat brk H; inv H; constructor; sred; inv_solve.
+  destruct a; unfold step in H; rewrite ?CF in H; sred; repeat brk H; inv H; constructor; sred; inv_solve.
   - specialize (D0 eq_refl). subst. destruct pp; inv_solve.
   - destruct f; inv_solve.
   - destruct f; inv_solve.
@@ -234,6 +235,7 @@ Proof.
     + take ARel.
     + take ARel. rewrite R. reflexivity.
     + take ARW.
+  - (* WDefer *) take AWk.
   - (* WSend *) destruct werr; [exfalso; assert (X : WSend r = WDone) by (apply A1; congruence); discriminate | take AWk].
 Qed.
 
@@ -282,8 +284,9 @@ Proof.
 Qed.
 
 (** ---- executions ---- *)
-Lemma inv_run : forall p acts s s', Inv s -> run p acts s = Some s' -> Inv s'.
+Lemma inv_run : forall p acts s s', p_closefail p = false -> Inv s -> run p acts s = Some s' -> Inv s'.
 Proof.
+  intros p acts s s' CF. revert s s'.
   induction acts as [|a r IH]; intros s s' I H; cbn in H.
   - inv H. exact I.
   - destruct (step p a s) eqn:S; [|discriminate]. eapply IH; [eapply inv_step; eauto | exact H].
@@ -297,12 +300,28 @@ Proof.
 Qed.
 
 Theorem validate_terminates_lemma : forall p acts s,
-  1 <= p_cap p -> run p acts (init p) = Some s ->
+  1 <= p_cap p -> p_closefail p = false -> run p acts (init p) = Some s ->
   length acts <= measure (init p) /\
   (s_main s = MRet \/ exists a s', a <> ACancel /\ step p a s = Some s').
 Proof.
-  intros p acts s C H. split.
+  intros p acts s C CF H. split.
   - apply run_length in H. lia.
-  - destruct (s_main s) eqn:M; try (right; apply no_stuck; [exact C | eapply inv_run; [apply inv_init | exact H] | congruence]).
+  - destruct (s_main s) eqn:M; try (right; apply no_stuck; [exact C | eapply inv_run; [exact CF | apply inv_init | exact H] | congruence]).
     left. reflexivity.
+Qed.
+
+(** the guard [p_closefail p = false] is needed: when targetPool.Close() fails in the worker's
+    deferred function, vctx.validate returns without sending on workerErrs and Validate blocks
+    forever on <-workerErrs (a clean one-file directory, nothing cancelled) *)
+Definition closefail_params : params :=
+  mkparams 1 [] false [FData [FHealthy] FMNone []] (mkcons None (fun _ _ _ => None) (fun _ => RNil) (fun _ => Some RNil)) false true.
+Definition closefail_sched : list action :=
+  [ACons; AMain; AWk; AMainF; AWA; AAR; ARel; ACons; AWk; AWk; AWk; AWk; AAgg; ARel; ARW; AMain; AMain; AWk; AWk].
+
+Theorem validate_blocks_when_close_fails_lemma :
+  exists s, run closefail_params closefail_sched (init closefail_params) = Some s /\
+            s_main s = MWaitW /\ forall a, step closefail_params a s = None \/ a = ACancel.
+Proof.
+  eexists. split; [vm_compute; reflexivity|]. split; [reflexivity|].
+  intros a. destruct a; (left; vm_compute; reflexivity) || (right; reflexivity).
 Qed.
